@@ -374,6 +374,11 @@ func (u *UniqueIdentifier) unpack(buf []byte, pos int) error {
 		return errUnexpectedExtHdrType
 	}
 	valueLen := u.extHdr.Length - 4
+	if valueLen < 32 {
+		// the identifier is echoed in the response, which cannot be
+		// encoded with less than 32 bytes
+		return errShortUniqueID
+	}
 	id := make([]byte, valueLen)
 	copy(id, buf[pos:])
 	u.ID = id
